@@ -9,8 +9,8 @@ use serde::{Deserialize, Serialize};
 
 use crate::cfg::{AvailableValueMap, MathOp};
 use crate::parser::{
-    CsrImm, HasRegisterSets, InstructionProperties, LabelString, LabelStringToken, LoadType,
-    RegisterProperties, StoreType,
+    CsrIType, CsrImm, CsrType, HasRegisterSets, InstructionProperties, LabelString,
+    LabelStringToken, LoadType, RegisterProperties, StoreType,
 };
 use crate::parser::{ParserNode, Register};
 use crate::passes::{CfgError, GenerationPass};
@@ -214,6 +214,26 @@ impl GenerationPass for AvailableValuePass {
                                 });
                             }
                         }
+                    }
+                    // Setting or clearing bits of a CSR leaves a content that is not
+                    // tracked: what was known about the CSR no longer holds. (With x0 or
+                    // a zero immediate these instructions only read.)
+                    let modified_csr = match node.node() {
+                        ParserNode::Csr(expr)
+                            if *expr.inst.get() != CsrType::Csrrw && expr.rs1 != Register::X0 =>
+                        {
+                            Some(expr.csr.get_cloned())
+                        }
+                        ParserNode::CsrI(expr)
+                            if *expr.inst.get() != CsrIType::Csrrwi
+                                && expr.imm.get().value() != 0 =>
+                        {
+                            Some(expr.csr.get_cloned())
+                        }
+                        _ => None,
+                    };
+                    if let Some(csr) = modified_csr {
+                        map.retain(|location, _| *location != MemoryLocation::CsrRegister(csr));
                     }
                     if let Some((MemoryLocation::StackOffset(offset), value)) =
                         node.gen_memory_value()
